@@ -250,6 +250,19 @@ def sym_sqrt(x):
     return SymReal(s)
 
 
+def _nominal_dtype(a):
+    """the machine type an object array stands for (tag set by astype or by
+    the harness), looked up along the chain of views"""
+    for _ in range(4):
+        if a is None:
+            return None
+        dt = a.__dict__.get('_as_dtype') if hasattr(a, '__dict__') else None
+        if dt is not None:
+            return dt
+        a = getattr(a, 'base', None)
+    return None
+
+
 class SymBytes(object):
     """what ndarray.tobytes() of symbolic cells stands for: a sequence of
     real byte strings and (dtype string, symbolic value) items"""
@@ -321,6 +334,13 @@ class SymNDArray(_np.ndarray, metaclass=_NDMeta):
     sqrt-based ones (std) on *object* arrays of symbolic scalars build z3
     terms instead of forking on every comparison.  Numeric dtypes: numpy."""
     _real_base = _np.ndarray
+
+    def __array_finalize__(self, obj):
+        # the machine type an object array stands for travels with its views
+        # (np.asarray(x, dtype) returns x itself when the types agree)
+        dt = getattr(obj, '_as_dtype', None)
+        if dt is not None and self.dtype == object:
+            self._as_dtype = dt
 
     def _red(self, kind, axis, keepdims, sup, **kw):
         if isinstance(self, _np.ma.MaskedArray):
@@ -827,6 +847,12 @@ def make_numpy_shim():
                     isnum = _np.dtype(dt).kind in 'fiu'
                 except TypeError:
                     isnum = False
+                if isnum and realf is _np.asarray and \
+                        isinstance(a[0], _np.ndarray) and \
+                        _nominal_dtype(a[0]) is not None and \
+                        _nominal_dtype(a[0]) == _np.dtype(dt):
+                    # same machine type: asarray hands back its argument
+                    return a[0]
                 if isnum:
                     # numeric cast of symbolic values: stay symbolic
                     k2 = dict(k)
